@@ -906,20 +906,30 @@ def replay(ctx, corr, path):
         corr.extra['replay'] = 'replay file carries no operation'
 
 MANIFEST = {
-    'level_text': 'Lean 4 theorems for all inputs: the integer-constant type ladder of convert_pp_int equals the C11 6.4.4.1p5 table for every '
-                  'base, suffix class and 64-bit value (C11_int_type; the region without a standard type is characterised exactly, '
-                  'C11_int_type_region); every suffix spelling is recognised (C11_int_suffix); encode_utf8 produces the RFC 3629 bytes for '
-                  'every value < 2^21 and decode_utf8 inverts it for every following text, decodes the RFC bit layout and rejects misplaced / '
-                  'missing continuation bytes (C11_utf8_layout, C11_utf8_roundtrip, C11_utf8_decode, C11_utf8_rejects); the UTF-16 units are '
-                  'those of RFC 2781 with surrogates in range that recombine (C11_utf16); simple/octal escapes, floating suffixes and the '
-                  'per-prefix element types are decided over the whole tables.  The translated functions are regenerated from the source '
-                  'on every run and run against the compiled C (exhaustively over all code points in the thorough tier); the hand models of '
-                  'the readers, concatenation and text phases are tied by in-process differential execution; generated programs are '
-                  'compiled by chibicc and gcc -std=c11 and their observable literal values/types/bytes compared.',
-    'level_note': 'Trusted: Lean kernel (axioms propext, Classical.choice, Quot.sound), the translator, the hand models (tied by testing), '
-                  'Spec (validated against gcc 12), libc strtoul/strtold.  Floating-constant values are compared with gcc, not proved.  '
-                  'Types are stated modulo long long = long (chibicc has one 64-bit integer type per signedness).',
-    'technique': 'Lean 4 proof over translator-regenerated codecs/ladders (bit-vector facts lifted from all 256 byte values + omega), '
-                 'whole-table decide; in-process differential correspondence; gcc -std=c11 as end-to-end oracle',
+    'level_text': 'Lean 4 theorems for all inputs.  Integer constants: the >>31/>>32/>>63 ladder of convert_pp_int equals the C11 6.4.4.1p5 '
+                  'table for every base, suffix class and 64-bit value (C11_int_type; the region without a standard type is characterised '
+                  'exactly, C11_int_type_region/_excluded); every suffix spelling is recognised (C11_int_suffix); for every spelling '
+                  'prefix+digits+suffix the token gets the value of its digits and that type (C11_int_value, C11_int_literal).  UTF-8: '
+                  'encode_utf8 writes the RFC 3629 bytes for every value < 2^21, decode_utf8 inverts it before any following text, decodes '
+                  'the RFC bit layout and rejects misplaced/missing continuation bytes (C11_utf8_layout/_patterns/_roundtrip/_decode/_rejects). '
+                  'UTF-16: units of RFC 2781, surrogates in range, recombine (C11_utf16).  Identifiers: is_ident1/is_ident2 equal Annex D for '
+                  'every code point (C11_ident_ranges).  Escapes: simple/octal by whole-table decision, hexadecimal for every digit sequence '
+                  '(C11_escape, _octal, _hex).  String literals: for every reader and every body of source characters and escapes the code '
+                  'units are the per-character UTF-8/UTF-16/UTF-32 encodings, with array length and token extent (C11_strings, '
+                  'C11_string_char); character constants (C11_char_const); per-prefix element types (C11_prefix_types); floating suffix '
+                  'types (C11_float_type).  Adjacent literals: kind resolution equals 6.4.5p5, different prefixes are diagnosed, the result is '
+                  'the concatenation with one terminator (C11_join_prefix_spec, C11_strings_join, C11_strings_join_diagnosed).  Source '
+                  'text: BOM, CR/CRLF/LF lines, splices (logical lines and newline count preserved), universal character names '
+                  '(C11_text_bom/_newlines/_splice/_ucn).  The translated functions are regenerated from the source on every run and run '
+                  'against the compiled C (exhaustively over all 0x110000 code points in the thorough tier); the hand models are tied by '
+                  'in-process differential execution; generated programs are compiled by chibicc and gcc -std=c11 and compared.',
+    'level_note': 'Trusted: Lean kernel (axioms propext, Classical.choice, Quot.sound), the translator, the hand models (tied by testing and '
+                  'by pinning their source text), Spec (validated against gcc 12 and python reference codecs), libc strtoul/strtold.  '
+                  'Floating-constant values are compared with gcc bit for bit but not modelled.  Open: the composition "splice anywhere '
+                  'does not change the token" (C11_text_transparent_Statement).  Types are stated modulo long long = long (chibicc has '
+                  'one 64-bit integer type per signedness; only _Generic/pointer compatibility can tell).',
+    'technique': 'Lean 4 proof over translator-regenerated codecs/ladders/tables (bit-vector facts lifted from all 256 byte values + omega; '
+                 'range tables decided at their endpoints; induction over literal bodies), whole-table decide; in-process differential '
+                 'correspondence; gcc -std=c11 as end-to-end oracle',
     'design_ref': 'DESIGN.md section 6, C11',
 }
